@@ -24,6 +24,7 @@ from harness import core
 from harness.core import Broken, Ctx, Failure, LeanDriver, Prop, Result, write_if_changed
 
 GEN_FILE = core.LEAN / "QmiModel" / "Gen" / "CfgDefs.lean"
+ROUTES_FILE = core.LEAN / "QmiModel" / "Gen" / "CfgRoutes.lean"
 FLOAT_LIMIT = 2 ** 1024 - 2 ** 970          # float(n) raises OverflowError iff |n| >= this
 SHIPPED_MODULE = "qmi.core.config_defs"
 EXTRA_SHIPPED = [("qmi.utils.adwin_manager", "CfgAdwinProgram")]   # outside the anchored files; included when importable
@@ -594,6 +595,74 @@ def gen_lean(order) -> str:
         out.append("")
     out.append("end QmiModel.Config.Gen")
     return "\n".join(out) + "\n"
+
+
+def scan_routes():
+    """AST scan of qmi/**/*.py: (a) every call that builds a @configstruct class as `Cls(**expr)`; (b) every call of
+    config_struct_from_dict with the class it converts to. Fails loudly on a call shape it does not understand."""
+    import ast
+    root = core.REPO / "qmi"
+    trees = {}
+    for f in sorted(root.rglob("*.py")):
+        try:
+            trees[f] = ast.parse(f.read_text(encoding="utf-8"))
+        except SyntaxError as e:
+            raise ValueError(f"cannot parse {f}: {e}")
+    struct_names = set()
+    for tree in trees.values():
+        for node in ast.walk(tree):
+            if isinstance(node, ast.ClassDef):
+                for d in node.decorator_list:
+                    name = d.id if isinstance(d, ast.Name) else d.attr if isinstance(d, ast.Attribute) else None
+                    if name == "configstruct":
+                        struct_names.add(node.name)
+    if not struct_names:
+        raise ValueError("no @configstruct class found by the AST scan")
+    adhoc, conv = [], []
+
+    def callee(n):
+        return n.id if isinstance(n, ast.Name) else n.attr if isinstance(n, ast.Attribute) else None
+
+    for f, tree in trees.items():
+        rel = str(f.relative_to(core.REPO))
+        for fn in ast.walk(tree):
+            if not isinstance(fn, (ast.FunctionDef, ast.AsyncFunctionDef)):
+                continue
+            for node in ast.walk(fn):
+                if not isinstance(node, ast.Call):
+                    continue
+                c = callee(node.func)
+                if c in struct_names and (any(k.arg is None for k in node.keywords)
+                                          or any(isinstance(a, ast.Starred) for a in node.args)):
+                    adhoc.append((rel, fn.name, c))
+                if c == "config_struct_from_dict":
+                    if len(node.args) == 2 and not node.keywords:
+                        cls = callee(node.args[1])
+                    else:
+                        kw = {k.arg: k.value for k in node.keywords}
+                        cls = callee(kw["cls"]) if "cls" in kw else (callee(node.args[1]) if len(node.args) > 1 else None)
+                    if cls is None:
+                        raise ValueError(f"{rel}:{node.lineno}: config_struct_from_dict call with a class expression "
+                                         "the C16 route scan does not understand")
+                    conv.append((rel, fn.name, cls))
+    return sorted(set(adhoc)), sorted(set(conv))
+
+
+def gen_routes_lean(adhoc, conv) -> str:
+    def lit(rows):
+        return "[" + ", ".join(f'("{a}", "{b}", "{c}")' for a, b, c in rows) + "]"
+    return "\n".join([
+        "/-! GENERATED by harness/props/c16.py (`translate`, AST scan of qmi/**/*.py) — do not edit. -/",
+        "namespace QmiModel.Config.Gen",
+        "",
+        "/-- calls `Cls(**…)` / `Cls(*…)` with `Cls` a `@configstruct` class: (file, enclosing function, class) -/",
+        f"def adhocConstructorCalls : List (String × String × String) := {lit(adhoc)}",
+        "",
+        "/-- calls of `config_struct_from_dict(data, Cls)`: (file, enclosing function, class) -/",
+        f"def conversionCalls : List (String × String × String) := {lit(conv)}",
+        "",
+        "end QmiModel.Config.Gen",
+        ""])
 
 
 # ---------------------------------------------------------------------------
@@ -1361,7 +1430,8 @@ class C16(Prop):
         if not order:
             raise ValueError("no @configstruct class found in " + SHIPPED_MODULE)
         write_if_changed(GEN_FILE, gen_lean(order))
-        return [GEN_FILE]
+        write_if_changed(ROUTES_FILE, gen_routes_lean(*scan_routes()))
+        return [GEN_FILE, ROUTES_FILE]
 
     # -- helpers ----------------------------------------------------------
     def _world(self) -> World:
@@ -1724,6 +1794,7 @@ class C16(Prop):
         X.raw_stream(self, ctx, res, world, ctx.scale(500, 8000))
         X.odd_corner_corpus(self, ctx, res, world)
         X.createcfg_stream(self, ctx, res, world)
+        X.routes_stream(self, ctx, res, world, ctx.scale(120, 1500))
         X.file_stream(self, ctx, res, ctx.scale(150, 3000))
         res.assumptions.append("json.loads(json.dumps(d)) == d for JSON-representable d (third-party parameter)")
         return res
@@ -1764,6 +1835,9 @@ class C16(Prop):
     def replay(self, ctx: Ctx, rp: dict, world: Optional[World] = None):
         world = world or self._world()
         kind = rp.get("kind")
+        if kind == "route":
+            from harness.props import c16_ext as X
+            return X.replay_route(world, rp)
         if kind in ("raw", "rawparse", "rawfrom", "nonstr", "initfalse", "createcfg", "filerw", "fileload", "filefixed"):
             from harness.props import c16_ext as X
             if kind in ("raw", "rawparse", "rawfrom"):
